@@ -177,6 +177,9 @@ func Execute(p *Plan, scratch string) (res *Result) {
 			if op.Body != nil {
 				budget += int64(op.Body.Size) * 40
 			}
+			if op.K == "bulk" {
+				budget += int64(op.Max) * 40000
+			}
 		}
 	}
 	// goskiplist draws tower heights from the global math/rand source and calls
